@@ -102,7 +102,7 @@ func GenCase(r *rand.Rand, o GenOpts) Case {
 			case 1:
 				m = methods[r.IntN(len(methods))]
 			case 2:
-				m = "TRACE"
+				m = []string{"TRACE", "CONNECT", "HEAD"}[r.IntN(3)]
 			}
 		}
 		c.Reqs = append(c.Reqs, Req{Method: m, Host: host, Path: path})
